@@ -725,7 +725,87 @@ def _generic_guard(prog, res, fn, pa, node, construct, bounds: set, text: Option
     if _all_or_nothing(prog, fn, pa, node, bounds, text):
         res.ok("R20.3", fn.loc(node), fn.fq, construct, "all or nothing: the text is handed back untouched when ANY of the collected ranges is on an annotated line")
         return
+    # idiom (iii): `if not <flag> and has_ignore_comment(text, range): return text` - the test is switched off by a parameter
+    # that only the applier of SCHEDULED rewrites sets: the scheduler has tested every range of the transaction against the
+    # text the ranges were computed for (C10 R10.6, adopted as R20.6), and a second test on the partly rewritten text would
+    # refuse single rewrites of an accepted transaction
+    flag = _scheduled_flag(prog, fn, pa, worlds, bounds, text)
+    if flag:
+        res.ok("R20.3", fn.loc(node), fn.fq, construct, f"tested here unless `{flag}` is set, and `{flag}` is set only where rewrites accepted by the scheduler are applied")
+        return
     res.bad("R20.3", fn.loc(node), fn.fq, construct, why + "; an annotated line can be rewritten or deleted here")
+
+
+def _scheduled_flag(prog, fn, pa, worlds, bounds: set, text) -> Optional[str]:
+    """Name of a parameter P of fn (default False) such that every world at the site holds `P or not has_ignore_comment(text, R)`
+    with R built from the spliced positions, and every call that passes P true applies rewrites that come out of the
+    scheduler (the caller iterates a parameter to which all ITS callers pass the result of processing._schedule_rewrites)."""
+    args = fn.node.args
+    defaults = dict(zip([a.arg for a in args.kwonlyargs], args.kw_defaults))
+    pos = args.posonlyargs + args.args
+    defaults.update(zip([a.arg for a in pos[len(pos) - len(args.defaults):]], args.defaults))
+    for p_name, d in defaults.items():
+        if not (isinstance(d, ast.Constant) and d.value is False):
+            continue
+        ok = True
+        for w in worlds:
+            p_tok = w.token(p_name)
+            text_tok = w.token(text.id) if isinstance(text, ast.Name) else ""
+            bound_toks = {w.token(b) for b in bounds}
+            good = False
+            for f in w.facts:
+                if f[0] != "or":
+                    continue
+                has_flag = any(x[0] == "lit" and x[2] and plain(x[1]) == p_name and p_tok in x[1] for x in f[1])
+                for x in f[1]:
+                    if x[0] == "lit" and not x[2] and "has_ignore_comment(" in x[1] and (not text_tok or text_tok in x[1]):
+                        toks = set(re.findall(r"[A-Za-z_]\w*#\w+", x[1][x[1].index("has_ignore_comment("):])) - {text_tok}
+                        if has_flag and (not bounds or bound_toks <= toks or _derived_from(fn, bounds, toks)):
+                            good = True
+            ok = ok and good
+        if not ok:
+            continue
+        # who sets the flag
+        setters = []
+        for g in prog.funcs.values():
+            for c in prog.calls_in(g):
+                r = prog.resolve_call(c.func, g.mod, g)
+                if r and r[0] == "fn" and r[1].key == fn.key:
+                    v = next((k.value for k in c.keywords if k.arg == p_name), None)
+                    if v is not None and not (isinstance(v, ast.Constant) and v.value is False):
+                        setters.append((g, c))
+        if not setters:
+            return p_name
+        fine = True
+        for g, c in setters:
+            # the rewrite handed over is drawn from a parameter of g ...
+            loop = parent(c)
+            while loop is not None and not isinstance(loop, ast.For):
+                loop = parent(loop)
+            src = loop.iter if loop is not None else None
+            if not (isinstance(src, ast.Name) and src.id in g.all_params):
+                fine = False
+                continue
+            idx = g.posparams.index(src.id) if src.id in g.posparams else None
+            # ... to which every caller of g passes what processing._schedule_rewrites returned
+            callers = 0
+            for h in prog.funcs.values():
+                for c2 in prog.calls_in(h):
+                    r2 = prog.resolve_call(c2.func, h.mod, h)
+                    if not (r2 and r2[0] == "fn" and r2[1].key == g.key):
+                        continue
+                    callers += 1
+                    a = call_arg(c2, idx if idx is not None else 99, src.id)
+                    vals = [a] if a is not None else []
+                    if isinstance(a, ast.Name):
+                        vals = [v for _s, v in assignments(h, a.id) if v is not None]
+                    if not vals or not all(isinstance(v, ast.Call) and (prog.dotted(v.func) or "").split(".")[-1] == "_schedule_rewrites" for v in vals):
+                        fine = False
+            if callers == 0:
+                fine = False
+        if fine:
+            return p_name
+    return None
 
 
 def _all_or_nothing(prog, fn, pa, node, bounds: set, text) -> bool:
@@ -865,6 +945,7 @@ def _whitespace_only(prog, fn, pa, node, bounds: set) -> bool:
 from ..selftest import Variant  # noqa: E402
 
 VARIANTS = [
+    Variant("direct-editor-claims-its-rewrites-are-scheduled", "FIRE", "processing", "        new_source = _do_rewrite(new_source, rewrite)\n", "        new_source = _do_rewrite(new_source, rewrite, scheduled=True)\n", "R20.3"),
     Variant("fast-path-tests-one-spelling-of-the-comment", "FIRE", "core", '    pattern = re.compile(r"#\\s*pyrefact\\s*:\\s*(skip_file|ignore)")\n', '    if "# pyrefact:" not in source:\n        return False\n' + '    pattern = re.compile(r"#\\s*pyrefact\\s*:\\s*(skip_file|ignore)")\n', "R20.9"),
     Variant("fast-path-tests-a-word-every-comment-contains", "SILENT", "core", '    pattern = re.compile(r"#\\s*pyrefact\\s*:\\s*(skip_file|ignore)")\n', '    if "pyrefact" not in source:\n        return False\n' + '    pattern = re.compile(r"#\\s*pyrefact\\s*:\\s*(skip_file|ignore)")\n'),
     Variant("fast-path-tests-the-colon-with-the-word", "FIRE", "core", '    pattern = re.compile(r"#\\s*pyrefact\\s*:\\s*(skip_file|ignore)")\n', '    if "pyrefact:" not in source:\n        return False\n' + '    pattern = re.compile(r"#\\s*pyrefact\\s*:\\s*(skip_file|ignore)")\n', "R20.9"),
